@@ -51,6 +51,12 @@ print("The check's own configuration lists what is assumed, partial or not model
 print("level_note: " + C.get("level_note", "") + "\n")
 for a in C.get("assumptions", []):
     print("assumption: " + a)
+rv = os.path.join(VERIF, "reviews", pid + ".md")
+if os.path.exists(rv):
+    print("\nAn independent sceptical reviewer compared the property statement, your theorems and the Go code; the findings are in /verif/reviews/%s.md. "
+          "Read them. For each finding decide: valid -> fix it (add the missing theorem, strengthen the weak one, remove a vacuous hypothesis, make the model follow the code, "
+          "extend generator/observation so the tie covers it); not valid -> say why in one line of your report. A finding that shows the model does NOT do what the Go code "
+          "does has priority over everything else in job B: reproduce it on the real code first (the default repair is to the model).\n" % pid)
 print(f"""
 Pick the items that are LOGIC of the code rather than Go-runtime facts (a branch of the code that is 'not modelled', a path that is 'outside the model', a component that is 'bypassed', an assumption about ANOTHER part of cell2 that a model could discharge, a structural fact that is only asserted) and move as many as you can inside: extend the executable model so it mirrors that code, extend the harness generator and observation so the correspondence run exercises it on every run, state and prove the theorems the property needs about the new component (unbounded quantification by induction / invariants / refinement; a `decide` over samples is a test), with a non-vacuity example per conditional theorem. Also: replace hypotheses of existing theorems by proved facts where the model can carry them; where a structural fact about the source is load-bearing for a theorem, prefer a behavioural tie (drive the real code) over a syntactic one, and if it must be syntactic make the extractor robust to helper extraction, renaming, moving code between files and reordering of independent statements. Update `level_text` / `level_note` / `assumptions` / `trusted_base` / `required_theorems` / `rule` in checks/{pid}.py so they describe exactly what is now proved, tied and assumed (they are copied into MANIFEST.json and the evidence file). Never weaken or delete an existing theorem, never loosen the spec monitor to make something quiet, never touch properties.jsonl.
 
@@ -59,6 +65,6 @@ Pick the items that are LOGIC of the code rather than Go-runtime facts (a branch
 * every seeded change of this property still gives the recorded result or better: `bin/runseeds -j1 {pid}` (takes a while; harmless rewrites `*-h*` must stay silent, mutations must stay detected).
 * no sorry/admit/axiom/native_decide/bv_decide/unsafe/implemented_by/maxHeartbeats 0; axioms only propext, Classical.choice, Quot.sound; every tactic block fast.
 * evidence validates against /root/.vp/EVIDENCE.schema.json (bin/check writes it; run a plain `bin/check {pid}` LAST so the evidence file comes from the unchanged tree).
-Do not commit anything (the lead commits). Do not edit shared files (BUILDING.md lists them) or other properties' files; do not modify /repo (overlays only; if you need a `verif`-tagged hook in /repo, describe it in your report). `lake` only under the lock (`flock /verif/lean/.verif.lock lake build ...`); other builders are working on other properties at the same time, so expect to wait for the lock and never kill processes you did not start. Scratch under /tmp/{lc}-work, removed at the end.
+Do not commit anything (the lead commits). Do not edit shared files (BUILDING.md lists them) or other properties' files; do not modify /repo (overlays only; if you need a `verif`-tagged hook in /repo, describe it in your report). While you ITERATE on Lean, work in a private copy so that you never wait for the lock: `mkdir -p /tmp/{lc}-work && cp -a /verif/lean /tmp/{lc}-work/lean` (278 MB, includes the compiled .lake), edit and `lake build Cell2v.Props.{pid} modeld_{lc}` there freely, then copy the finished .lean files back into /verif/lean. In /verif/lean itself `lake` runs only under the lock (`flock /verif/lean/.verif.lock lake build ...`; bin/check takes it by itself) - use it for the final verification, not for every proof attempt; other builders are working on other properties at the same time, so expect to wait for the lock and never kill processes you did not start. Scratch under /tmp/{lc}-work, removed at the end.
 
 Final message (the only thing the lead sees), compact: for each job-A item what was missing and what now catches it (signature); for job B what was moved inside the model, the new theorems (one line each), what was tried and dropped; files changed; quick/thorough wall time; runseeds summary (any change of result); anything the lead must do; any suspected genuine defect of /repo with a concrete failing input (reproduced on the real code).""")
